@@ -219,6 +219,39 @@ def ev(node, env):
                 return b.get(*a_)
             if not a_:
                 return [tuple(x) if node.func.attr == 'items' else x for x in getattr(b, node.func.attr)()]
+    if isinstance(node, ast.Call) and not node.keywords or isinstance(node, ast.Call) and ast.unparse(node.func) in ('int.from_bytes',):
+        # pure conversions between the interpreter's own integers, byte strings and digit strings
+        fn = ast.unparse(node.func)
+        if fn in ('binascii.hexlify', 'hexlify', 'binascii.unhexlify', 'unhexlify', 'bin', 'hex', 'int.from_bytes') or (fn == 'int' and len(node.args) == 2):
+            import binascii as _b
+            a_ = [ev(x, env) for x in node.args]
+            kw_ = {k.arg: ev(k.value, env) for k in node.keywords}
+            try:
+                if fn.endswith('unhexlify') and len(a_) == 1 and isinstance(a_[0], (bytes, bytearray, str)):
+                    return _b.unhexlify(a_[0])
+                if fn.endswith('hexlify') and len(a_) == 1 and isinstance(a_[0], (bytes, bytearray)):
+                    return _b.hexlify(bytes(a_[0]))
+                if fn == 'bin' and len(a_) == 1 and isinstance(a_[0], int):
+                    return bin(a_[0])
+                if fn == 'hex' and len(a_) == 1 and isinstance(a_[0], int):
+                    return hex(a_[0])
+                if fn == 'int' and isinstance(a_[0], (bytes, bytearray, str)) and a_[1] in (2, 8, 10, 16):
+                    return int(a_[0], a_[1])
+                if fn == 'int.from_bytes' and isinstance(a_[0], (bytes, bytearray)):
+                    bo = a_[1] if len(a_) > 1 else kw_.get('byteorder', 'big')
+                    if bo in ('big', 'little'):
+                        return int.from_bytes(bytes(a_[0]), bo, signed=bool(kw_.get('signed', False)))
+            except ValueError as e:
+                raise Unsupported('conversion raises: %s' % e)
+            raise Unsupported('conversion %s of %s' % (fn, [type(x).__name__ for x in a_]))
+    if isinstance(node, ast.Subscript) and isinstance(node.slice, ast.Slice):
+        b = ev(node.value, env)
+        if isinstance(b, (list, tuple, bytes, bytearray, str)):
+            lo = ev(node.slice.lower, env) if node.slice.lower is not None else None
+            hi = ev(node.slice.upper, env) if node.slice.upper is not None else None
+            st = ev(node.slice.step, env) if node.slice.step is not None else None
+            if all(x is None or isinstance(x, int) for x in (lo, hi, st)):
+                return b[lo:hi:st]
     if isinstance(node, ast.Tuple):
         return tuple(ev(e, env) for e in node.elts)
     if isinstance(node, ast.Subscript) and not isinstance(node.slice, ast.Slice):
